@@ -5,6 +5,10 @@
 #include <atomic>
 using namespace vh;
 
+// a user-defined argument type whose format_type overload takes the value by value
+struct ByValArg { ST::string s; };
+inline void format_type(const ST::format_spec &f, ST::format_writer &o, ByValArg v) { ST::format_type(f, o, v.s); }
+
 // ---- allocation accounting and fault injection (global operator new/delete replaced) ----
 static long g_live_arr = 0;        // live new[] blocks
 static long g_fail_in = -1;        // >= 0: the (g_fail_in)-th allocation from now throws
@@ -401,6 +405,28 @@ struct StrPool {
         else if (op == "via32") { new (mem[o]) S(S::from_utf32(at(idx(2)).to_utf32())); live[o] = true; }
         else if (op == "sstr") { const S &x = at(idx(2)); ST::string_stream ss; int reps = atoi(f[3].c_str());
                                  for (int i = 0; i < reps; ++i) ss << x << 12345; new (mem[o]) S(ss.to_string()); live[o] = true; }
+        // ---- results held BY REFERENCE, and arguments passed as plain lvalues
+        else if (op == "utf8ref") {
+            // const char_buffer &b = s.to_utf8(): whatever b is bound to must be independent of s from then on
+            S &x = at(o);
+            const ST::char_buffer &b = x.to_utf8();
+            std::string before(b.data(), b.size());
+            Block<char> d = units<char>(f[2]);
+            x = ST::char_buffer(d.data(), d.size());            // the source gets a new value
+            bool same = before.size() == b.size() && memcmp(before.data(), b.data(), b.size()) == 0 && b.data()[b.size()] == 0;
+            { NoWindow nw; extra = same ? ",ref=ok" : ",ref=changed"; }
+        }
+        else if (op == "fvlv") {
+            // from_validated(buf) / set_validated(buf) with a NON-const lvalue buffer: the argument keeps its value
+            ST::char_buffer buf = at(idx(2)).to_utf8();
+            new (mem[o]) S(S::from_validated(buf)); live[o] = true;
+            { NoWindow nw; extra = ",arg=" + hex(buf); }
+        }
+        else if (op == "svlv") {
+            ST::char_buffer buf = at(idx(2)).to_utf8();
+            at(o).set_validated(buf);
+            { NoWindow nw; extra = ",arg=" + hex(buf); }
+        }
         else if (op == "empty") { new (mem[o]) S(); live[o] = true; }
         else if (op == "copy") { new (mem[o]) S(at(idx(2))); live[o] = true; }
         else if (op == "mctor") { new (mem[o]) S(std::move(at(idx(2)))); live[o] = true; }
@@ -449,6 +475,17 @@ struct StrPool {
                                       fclose(fp); free(mb); }
             else if (k == "writef") { std::ostringstream os; ST::writef(os, "{}{}", std::move(x)); }
             else { fprintf(stderr, "h_mem: unknown fmtmovefail kind %s\n", k.c_str()); exit(2); }
+        }
+        else if (op == "fmtmoveuser") {      // a user-defined argument type whose formatter takes it BY VALUE, passed as an rvalue
+            Block<char> d = units<char>(f[2]);
+            ByValArg arg{ST::string::from_validated(d.data(), d.size())};
+            const std::string &k = f[3];
+            try {
+                if (k == "missing") { S r = ST::format("{}{}", std::move(arg)); (void)r; }
+                else if (k == "later") { S r = ST::format("{} {!}", std::move(arg), 1); (void)r; }
+                else { S r = ST::format("{}{", std::move(arg)); (void)r; }
+            } catch (...) { { NoWindow nw; extra = ",arg=" + hex(arg.s); } throw; }
+            { NoWindow nw; extra = ",arg=" + hex(arg.s); }
         }
         else if (op == "fmtmovestd") {       // the same with a std::string rvalue argument
             Block<char> d = units<char>(f[2]);
